@@ -2,7 +2,8 @@ SPECIFICATION Spec
 CONSTANTS
   Octets = {"A", "L", "T", "X"}
   MaxLen = 4
-  OutSizes = {1, 2, 3, 4, 8}
+  OutSizes = {0, 1, 2, 3, 4, 8}
+  EmptyReadRewinds = FALSE
   UseSpill = TRUE
 INVARIANT StreamingEqualsWhole
 INVARIANT AlwaysAPrefix
